@@ -3,8 +3,8 @@
    Print Assumptions follows every theorem.   *)
 
 From Coq Require Import List NArith Bool Sorting Permutation.
-From Ice Require Import Base Spec Varint Chunk Postings Dict DocValues.
-From IceProofs Require Dict_Proofs Iterator_Proofs DocValues_Proofs.
+From Ice Require Import Base Spec Varint Chunk Postings Dict DocValues Container Reuse.
+From IceProofs Require Dict_Proofs Iterator_Proofs DocValues_Proofs Reuse_Proofs.
 Import ListNotations.
 Open Scope N_scope.
 
@@ -12,7 +12,7 @@ Open Scope N_scope.
 Theorem it_init_old_irrelevant :
     forall (e : EncPL) (ex : option (list N)) (fn locs : bool) (fields : list bytes) (old : It),
     it_init e ex fn locs fields (Some old) = it_init e ex fn locs fields None.
-Proof. exact Dict_Proofs.it_init_old_irrelevant. Qed.
+Proof. exact @Dict_Proofs.it_init_old_irrelevant. Qed.
 Print Assumptions it_init_old_irrelevant.
 
 (* ... and the results are the specification's for every old object (forall old) *)
@@ -29,7 +29,7 @@ Theorem reuse_iter_refines :
     (Iterator_Proofs.spec_out inclFN inclLocs
     (filter (fun p : N * (N * (N * list ALoc)) => Iterator_Proofs.live_opt except (fst p))
     (map (Iterator_Proofs.resolve_posting fields) ps)) ops).
-Proof. exact Iterator_Proofs.iter_refines. Qed.
+Proof. exact @Iterator_Proofs.iter_refines. Qed.
 Print Assumptions reuse_iter_refines.
 
 (* the dictionary iterator's reused scratch list (forall tmp) *)
@@ -38,7 +38,7 @@ Theorem reuse_dict_scratch :
     pl_except tmp = None ->
     (forall (k : bytes) (d nb : N), In (k, V1Hit d nb) entries -> nb <> 0) ->
     dict_iter pl_read tmp entries = map (fun e : bytes * FstVal => (fst e, fst_count (snd e))) entries.
-Proof. exact Dict_Proofs.dict_iter_counts. Qed.
+Proof. exact @Dict_Proofs.dict_iter_counts. Qed.
 Print Assumptions reuse_dict_scratch.
 
 (* a doc-value reader continued from any consistent earlier state (forall r) *)
@@ -54,7 +54,7 @@ Theorem reuse_dv_reader :
     dv_visit r field n = Ok (r', DocValues_Proofs.spec_dv field es n) /\
     DocValues_Proofs.reader_ok
     (dv_chunks (DocValues_Proofs.nchunks_for numDocs) (DocValues_Proofs.enc_entries es)) r'.
-Proof. exact DocValues_Proofs.dv_visit_correct. Qed.
+Proof. exact @DocValues_Proofs.dv_visit_correct. Qed.
 Print Assumptions reuse_dv_reader.
 
 Theorem reuse_dv_reader_fields :
@@ -81,5 +81,90 @@ Theorem reuse_dv_reader_fields :
     | Some p => DocValues_Proofs.spec_dv f (snd p) n
     | None => []
     end) fields) visits).
-Proof. exact DocValues_Proofs.dv_run_fields. Qed.
+Proof. exact @DocValues_Proofs.dv_run_fields. Qed.
 Print Assumptions reuse_dv_reader_fields.
+
+(* the history form: in every finite sequence of lookups in which each lookup may pass ANY list or iterator produced earlier (also the two shared empty objects returned by earlier empty lookups) as prealloc, every lookup's Count, OrInto and iterated postings are those of the same lookup with fresh objects *)
+Theorem reuse_transparent :
+    forall lks : list lookup,
+    exists (st : state) (os : list obs),
+    run_seq st_init lks = Ok (st, os) /\
+    Forall2
+    (fun (lk : lookup) (o : obs) =>
+    exists st' : state, do_lookup st_init (no_prealloc lk) = Ok (st', o)) lks os.
+Proof. exact @Reuse_Proofs.reuse_transparent. Qed.
+Print Assumptions reuse_transparent.
+
+(* the package-level empty postings list and empty iterator are never written, whatever is handed back as prealloc *)
+Theorem shared_objects_never_written :
+    forall lks : list lookup,
+    exists (st : state) (os : list obs),
+    run_seq st_init lks = Ok (st, os) /\
+    ps_shared (st_pls st) = plobj_zero /\ is_shared (st_its st) = itobj_zero.
+Proof. exact @Reuse_Proofs.shared_objects_never_written. Qed.
+Print Assumptions shared_objects_never_written.
+
+(* an absent term or an unknown field yields nothing whatever the reused objects held before *)
+Theorem absent_observes_nothing :
+    forall (lks : list lookup) (k : nat) (lk : lookup),
+    nth_error lks k = Some lk ->
+    Reuse_Proofs.absent lk ->
+    exists (st : state) (os : list obs),
+    run_seq st_init lks = Ok (st, os) /\ nth_error os k = Some Reuse_Proofs.obs_nothing.
+Proof. exact @Reuse_Proofs.absent_observes_nothing. Qed.
+Print Assumptions absent_observes_nothing.
+
+(* the iterator's reused Posting struct (cleared at every step) delivers exactly what the cursor model delivers *)
+Theorem buf_run_equals_model :
+    forall (ops : list iter_op) (i : It) (b : nextbuf), buf_run true i b ops = it_run i ops.
+Proof. exact @Reuse_Proofs.buf_run_equals_model. Qed.
+Print Assumptions buf_run_equals_model.
+
+(* regression of the method: without the emptyPostingsList guard the shared object is written and a later absent lookup sees postings *)
+Theorem no_guard_refuted :
+    Reuse_Proofs.summary
+    (run_seq_gen false true st_init
+    [Reuse_Proofs.w_absent None None; Reuse_Proofs.w_present (Some 0%nat) None;
+    Reuse_Proofs.w_absent None None]) =
+    Some
+    ({|
+    po_postings := Some [1; 5];
+    po_doc1 := 0;
+    po_norm1 := 0;
+    po_except := None;
+    po_sb := Some Reuse_Proofs.w_fields;
+    po_enc := Some (encode_gen 4 2 Reuse_Proofs.w_ps)
+    |}, itobj_zero, [Reuse_Proofs.obs_nothing; Reuse_Proofs.w_obs_a; Reuse_Proofs.w_obs_a]) /\
+    Reuse_Proofs.summary
+    (run_seq st_init
+    [Reuse_Proofs.w_absent None None; Reuse_Proofs.w_present (Some 0%nat) None;
+    Reuse_Proofs.w_absent None None]) =
+    Some
+    (plobj_zero, itobj_zero, [Reuse_Proofs.obs_nothing; Reuse_Proofs.w_obs_a; Reuse_Proofs.obs_nothing]).
+Proof. exact @Reuse_Proofs.no_guard_refuted. Qed.
+Print Assumptions no_guard_refuted.
+
+(* ... and without Clear() a reused list answers an absent term with the previous term's documents *)
+Theorem no_clear_refuted :
+    Reuse_Proofs.summary
+    (run_seq_gen true false st_init
+    [Reuse_Proofs.w_present None None; Reuse_Proofs.w_absent (Some 0%nat) None]) =
+    Some
+    (plobj_zero, itobj_zero,
+    [Reuse_Proofs.w_obs_a; {| ob_count := 2; ob_docs := [1; 5]; ob_postings := ([], Panic) |}]) /\
+    Reuse_Proofs.summary
+    (run_seq st_init [Reuse_Proofs.w_present None None; Reuse_Proofs.w_absent (Some 0%nat) None]) =
+    Some (plobj_zero, itobj_zero, [Reuse_Proofs.w_obs_a; Reuse_Proofs.obs_nothing]).
+Proof. exact @Reuse_Proofs.no_clear_refuted. Qed.
+Print Assumptions no_clear_refuted.
+
+(* ... and without clearing the Posting struct a posting without locations carries the previous one's *)
+Theorem noclear_refuted :
+    buf_run false Reuse_Proofs.nc_it nb_zero [INext; INext; INext] =
+    Ok
+    [Some (0, (1, (1065353216, [([102], (7, (20, 25)))])));
+    Some (1, (2, (1056964608, [([102], (7, (20, 25)))]))); None] /\
+    buf_run false Reuse_Proofs.nc_it nb_zero [INext; INext; INext] <>
+    it_run Reuse_Proofs.nc_it [INext; INext; INext].
+Proof. exact @Reuse_Proofs.noclear_refuted. Qed.
+Print Assumptions noclear_refuted.
